@@ -116,119 +116,10 @@ Definition star_if (b : bool) (s : str) : str := if b then c_star :: s else s.
 
 (* ================= llgo: ssa/abi/type.go ================= *)
 
-(* Builder.TFlag(t) & TFlagExtraStar *)
-Fixpoint es (t : ty) : bool :=
-  match t with
-  | TPtr e => negb (es e)
-  | TNamed _ _ _ und => es und
-  | _ => false
-  end.
-
-(* reflectTypeArgPkgPath *)
-Definition targ_pkg (p : pkgid) : str :=
-  if str_eqb (fst p) s_cla && negb (str_eqb (snd p) []) then snd p else path_of (fst p).
-
-Definition is_slice (t : ty) : bool := match t with TSlice _ => true | _ => false end.
-Definition slice_elem (t : ty) : ty := match t with TSlice e => e | _ => t end.
-
-Fixpoint tys_len (ts : tys) : nat := match ts with TsNil => O | TsCons _ r => S (tys_len r) end.
-
-(* Builder.Str; [real x] below is realStr (the star is added back when the ExtraStar flag is set,
-   exactly as runtime/abi Type.String does) *)
-Fixpoint llgo_Str (t : ty) : str :=
-  match t with
-  | TBasic k => basic_str k
-  | TCut => []
-  | TNamed pkg name targs _ =>
-      let nm := name ++ match targs with TsNil => [] | _ => [c_lb] ++ llgo_targs targs ++ [c_rb] end in
-      match pkg with Some p => snd p ++ [c_dot] ++ nm | None => nm end
-  | TPtr e => if es e then [c_star; c_star] ++ llgo_Str e else llgo_Str e
-  | TSlice e => [c_lb; c_rb] ++ star_if (es e) (llgo_Str e)
-  | TArray n e => [c_lb] ++ dec n ++ [c_rb] ++ star_if (es e) (llgo_Str e)
-  | TMap k e => s_map_o ++ llgo_Str k ++ [c_rb] ++ star_if (es e) (llgo_Str e)
-  | TChan d e => dir_str d ++ [c_sp] ++ star_if (es e) (llgo_Str e)
-  | TFunc ps rs v => s_func_o ++ llgo_params ps v ++ [c_rp] ++
-      match rs with
-      | TsNil => []
-      | TsCons r TsNil => [c_sp] ++ star_if (es r) (llgo_Str r)
-      | _ => [c_sp; c_lp] ++ llgo_list rs ++ [c_rp]
-      end
-  | TStruct fs => s_struct_o ++ llgo_fields fs true ++ [c_rbrace]
-  | TIface ms => s_iface_o ++ llgo_methods ms true ++ [c_rbrace]
-  end
-(* parameters: the last one of a variadic signature is printed as ...Elem *)
-with llgo_params (ts : tys) (variadic : bool) : str :=
-  match ts with
-  | TsNil => []
-  | TsCons t TsNil =>
-      if variadic then s_dots ++ match t with
-                                 | TSlice e => star_if (es e) (llgo_Str e)
-                                 | _ => []
-                                 end
-      else star_if (es t) (llgo_Str t)
-  | TsCons t r => star_if (es t) (llgo_Str t) ++ s_commasp ++ llgo_params r variadic
-  end
-with llgo_list (ts : tys) : str :=
-  match ts with
-  | TsNil => []
-  | TsCons t TsNil => star_if (es t) (llgo_Str t)
-  | TsCons t r => star_if (es t) (llgo_Str t) ++ s_commasp ++ llgo_list r
-  end
-(* structStr: the tag is not printed *)
-with llgo_fields (fs : fields) (first : bool) : str :=
-  match fs with
-  | FsNil => if first then [] else [c_sp]
-  | FsCons name emb _ t r =>
-      (if first then [] else [c_semi]) ++ [c_sp] ++ (if emb then [] else name ++ [c_sp]) ++
-      star_if (es t) (llgo_Str t) ++ llgo_fields r false
-  end
-(* interfaceStr: realStr(sig)[4:] *)
-with llgo_methods (ms : methods) (first : bool) : str :=
-  match ms with
-  | MsNil => if first then [] else [c_sp]
-  | MsCons name exp pn sig r =>
-      (if first then [] else [c_semi]) ++ [c_sp] ++
-      (if exp then name else match pn with Some p => p ++ [c_dot] ++ name | None => name end) ++
-      skipn 4 (star_if (es sig) (llgo_Str sig)) ++ llgo_methods r false
-  end
-(* namedStr's type argument list: reflectTypeArgString, joined by a comma *)
-with llgo_targs (ts : tys) : str :=
-  match ts with
-  | TsNil => []
-  | TsCons t TsNil => star_if (es t) (llgo_targ t)
-  | TsCons t r => star_if (es t) (llgo_targ t) ++ [c_comma] ++ llgo_targs r
-  end
-(* reflectTypeArgBaseString *)
-with llgo_targ (t : ty) : str :=
-  match t with
-  | TBasic k => basic_str k
-  | TCut => []
-  | TNamed pkg name targs _ =>
-      let nm := name ++ match targs with TsNil => [] | _ => [c_lb] ++ llgo_targs targs ++ [c_rb] end in
-      match pkg with Some p => targ_pkg p ++ [c_dot] ++ nm | None => nm end
-  | TIface ms => s_iface_o ++ llgo_methods ms true ++ [c_rbrace]
-  | TPtr e => if es e then [c_star; c_star] ++ llgo_targ e else llgo_targ e
-  | TSlice e => [c_lb; c_rb] ++ star_if (es e) (llgo_targ e)
-  | TArray n e => [c_lb] ++ dec n ++ [c_rb] ++ star_if (es e) (llgo_targ e)
-  | TMap k e => s_map_o ++ llgo_targ k ++ [c_rb] ++ star_if (es e) (llgo_targ e)
-  | TChan d e => dir_str d ++ [c_sp] ++ star_if (es e) (llgo_targ e)
-  | TFunc _ _ _ | TStruct _ => s_fallback     (* types.TypeString fallback: not modelled *)
-  end.
-
-(* what reflect.Type.String returns under llgo: runtime/abi Type.String over (Str_, TFlag) *)
-Definition llgo_str (t : ty) : str := star_if (es t) (llgo_Str t).
-
-(* the TFlag bits that do not depend on the memory layout *)
-Definition is_variadic (t : ty) : bool := match t with TFunc _ _ v => v | _ => false end.
-Definition llgo_named (t : ty) : bool :=
-  match t with TBasic _ => true | TNamed _ _ _ _ => true | _ => false end.
-Fixpoint llgo_variadic (t : ty) : bool :=
-  match t with TFunc _ _ v => v | TNamed _ _ _ und => llgo_variadic und | _ => false end.
-(* bit values of runtime/abi: ExtraStar 2, Named 4, Variadic 16 *)
-Definition llgo_tflag (t : ty) : N :=
-  (if es t then 2 else 0) + (if llgo_named t then 4 else 0) + (if llgo_variadic t then 16 else 0).
-
-(* ================= Go: the documented reflect.Type.String ================= *)
+(* Every function below takes [fx : bool]: true is the code that exists (after the repairs of the
+   ExtraStar flag of defined pointer types, the struct tags, the parentheses of chan (<-chan T),
+   the star of pointer map keys and the qualifier of package main in type argument lists);
+   false is the code before those repairs, kept for the theorems that show what failed. *)
 
 (* strconv.Quote restricted to the bytes a struct tag is made of here: printable ASCII and
    bytes of (valid, printable) multi-byte UTF-8 are kept, the quote and the backslash are escaped,
@@ -244,12 +135,134 @@ Definition quote_byte (c : N) : str :=
   else [c].
 Definition go_quote (s : str) : str := [c_dq] ++ flat_map quote_byte s ++ [c_dq].
 
+Definition is_recv_chan (t : ty) : bool := match t with TChan DRecv _ => true | _ => false end.
+
+(* Builder.TFlag(t) & TFlagExtraStar (fx: extraStar, which does not look through defined types) *)
+Fixpoint es (fx : bool) (t : ty) : bool :=
+  match t with
+  | TPtr e => negb (es fx e)
+  | TNamed _ _ _ und => if fx then false else es fx und
+  | _ => false
+  end.
+
+(* reflectTypeArgPkgPath *)
+Definition targ_pkg (fx : bool) (p : pkgid) : str :=
+  if fx && str_eqb (snd p) s_main then s_main
+  else if str_eqb (fst p) s_cla && negb (str_eqb (snd p) []) then snd p else path_of (fst p).
+
+Definition is_slice (t : ty) : bool := match t with TSlice _ => true | _ => false end.
+Definition slice_elem (t : ty) : ty := match t with TSlice e => e | _ => t end.
+
+Fixpoint tys_len (ts : tys) : nat := match ts with TsNil => O | TsCons _ r => S (tys_len r) end.
+
+(* chanElemStr *)
+Definition chan_elem (fx : bool) (d : dir) (e : ty) (s : str) : str :=
+  if fx && match d with DBoth => is_recv_chan e | _ => false end then [c_lp] ++ s ++ [c_rp] else s.
+(* structStr: the tag *)
+Definition tag_str (fx : bool) (tag : str) : str :=
+  if fx then match tag with [] => [] | _ => [c_sp] ++ go_quote tag end else [].
+
+(* Builder.Str; [star_if (es fx x)] is realStr (the star is added back when the ExtraStar flag is
+   set, exactly as runtime/abi Type.String does) *)
+Fixpoint llgo_Str (fx : bool) (t : ty) : str :=
+  match t with
+  | TBasic k => basic_str k
+  | TCut => []
+  | TNamed pkg name targs _ =>
+      let nm := name ++ match targs with TsNil => [] | _ => [c_lb] ++ llgo_targs fx targs ++ [c_rb] end in
+      match pkg with Some p => snd p ++ [c_dot] ++ nm | None => nm end
+  | TPtr e => if es fx e then [c_star; c_star] ++ llgo_Str fx e else llgo_Str fx e
+  | TSlice e => [c_lb; c_rb] ++ star_if (es fx e) (llgo_Str fx e)
+  | TArray n e => [c_lb] ++ dec n ++ [c_rb] ++ star_if (es fx e) (llgo_Str fx e)
+  | TMap k e => s_map_o ++ star_if (fx && es fx k) (llgo_Str fx k) ++ [c_rb] ++ star_if (es fx e) (llgo_Str fx e)
+  | TChan d e => dir_str d ++ [c_sp] ++ chan_elem fx d e (star_if (es fx e) (llgo_Str fx e))
+  | TFunc ps rs v => s_func_o ++ llgo_params fx ps v ++ [c_rp] ++
+      match rs with
+      | TsNil => []
+      | TsCons r TsNil => [c_sp] ++ star_if (es fx r) (llgo_Str fx r)
+      | _ => [c_sp; c_lp] ++ llgo_list fx rs ++ [c_rp]
+      end
+  | TStruct fs => s_struct_o ++ llgo_fields fx fs true ++ [c_rbrace]
+  | TIface ms => s_iface_o ++ llgo_methods fx ms true ++ [c_rbrace]
+  end
+(* parameters: the last one of a variadic signature is printed as ...Elem *)
+with llgo_params (fx : bool) (ts : tys) (variadic : bool) : str :=
+  match ts with
+  | TsNil => []
+  | TsCons t TsNil =>
+      if variadic then s_dots ++ match t with
+                                 | TSlice e => star_if (es fx e) (llgo_Str fx e)
+                                 | _ => []
+                                 end
+      else star_if (es fx t) (llgo_Str fx t)
+  | TsCons t r => star_if (es fx t) (llgo_Str fx t) ++ s_commasp ++ llgo_params fx r variadic
+  end
+with llgo_list (fx : bool) (ts : tys) : str :=
+  match ts with
+  | TsNil => []
+  | TsCons t TsNil => star_if (es fx t) (llgo_Str fx t)
+  | TsCons t r => star_if (es fx t) (llgo_Str fx t) ++ s_commasp ++ llgo_list fx r
+  end
+(* structStr *)
+with llgo_fields (fx : bool) (fs : fields) (first : bool) : str :=
+  match fs with
+  | FsNil => if first then [] else [c_sp]
+  | FsCons name emb tag t r =>
+      (if first then [] else [c_semi]) ++ [c_sp] ++ (if emb then [] else name ++ [c_sp]) ++
+      star_if (es fx t) (llgo_Str fx t) ++ tag_str fx tag ++ llgo_fields fx r false
+  end
+(* interfaceStr: realStr(sig)[4:] *)
+with llgo_methods (fx : bool) (ms : methods) (first : bool) : str :=
+  match ms with
+  | MsNil => if first then [] else [c_sp]
+  | MsCons name exp pn sig r =>
+      (if first then [] else [c_semi]) ++ [c_sp] ++
+      (if exp then name else match pn with Some p => p ++ [c_dot] ++ name | None => name end) ++
+      skipn 4 (star_if (es fx sig) (llgo_Str fx sig)) ++ llgo_methods fx r false
+  end
+(* namedStr's type argument list: reflectTypeArgString, joined by a comma *)
+with llgo_targs (fx : bool) (ts : tys) : str :=
+  match ts with
+  | TsNil => []
+  | TsCons t TsNil => star_if (es fx t) (llgo_targ fx t)
+  | TsCons t r => star_if (es fx t) (llgo_targ fx t) ++ [c_comma] ++ llgo_targs fx r
+  end
+(* reflectTypeArgBaseString *)
+with llgo_targ (fx : bool) (t : ty) : str :=
+  match t with
+  | TBasic k => basic_str k
+  | TCut => []
+  | TNamed pkg name targs _ =>
+      let nm := name ++ match targs with TsNil => [] | _ => [c_lb] ++ llgo_targs fx targs ++ [c_rb] end in
+      match pkg with Some p => targ_pkg fx p ++ [c_dot] ++ nm | None => nm end
+  | TIface ms => s_iface_o ++ llgo_methods fx ms true ++ [c_rbrace]
+  | TPtr e => if es fx e then [c_star; c_star] ++ llgo_targ fx e else llgo_targ fx e
+  | TSlice e => [c_lb; c_rb] ++ star_if (es fx e) (llgo_targ fx e)
+  | TArray n e => [c_lb] ++ dec n ++ [c_rb] ++ star_if (es fx e) (llgo_targ fx e)
+  | TMap k e => s_map_o ++ star_if (fx && es fx k) (llgo_targ fx k) ++ [c_rb] ++ star_if (es fx e) (llgo_targ fx e)
+  | TChan d e => dir_str d ++ [c_sp] ++ chan_elem fx d e (star_if (es fx e) (llgo_targ fx e))
+  | TFunc _ _ _ | TStruct _ => s_fallback     (* types.TypeString fallback: not modelled *)
+  end.
+
+(* what reflect.Type.String returns under llgo: runtime/abi Type.String over (Str_, TFlag) *)
+Definition llgo_str (fx : bool) (t : ty) : str := star_if (es fx t) (llgo_Str fx t).
+
+(* the TFlag bits that do not depend on the memory layout *)
+Definition is_variadic (t : ty) : bool := match t with TFunc _ _ v => v | _ => false end.
+Definition llgo_named (t : ty) : bool :=
+  match t with TBasic _ => true | TNamed _ _ _ _ => true | _ => false end.
+Fixpoint llgo_variadic (t : ty) : bool :=
+  match t with TFunc _ _ v => v | TNamed _ _ _ und => llgo_variadic und | _ => false end.
+(* bit values of runtime/abi: ExtraStar 2, Named 4, Variadic 16 *)
+Definition llgo_tflag (fx : bool) (t : ty) : N :=
+  (if es fx t then 2 else 0) + (if llgo_named t then 4 else 0) + (if llgo_variadic t then 16 else 0).
+
+(* ================= Go: the documented reflect.Type.String ================= *)
+
 (* the package qualifier: the package name at top level, the import path (main for the main
    package) inside a type argument list *)
 Definition go_pkg (in_targ : bool) (p : pkgid) : str :=
   if in_targ then (if str_eqb (snd p) s_main then s_main else fst p) else snd p.
-
-Definition is_recv_chan (t : ty) : bool := match t with TChan DRecv _ => true | _ => false end.
 
 Fixpoint go_str (q : bool) (t : ty) : str :=
   match t with
